@@ -13,7 +13,7 @@ usage: scenario.py <seed> <L> <n_random> <rustlex> <out.json> [known.json]
 import sys, json, random, itertools, subprocess, binascii, re
 
 ALPHA = ['a', 'Z', '1', '0', '_', "'", '"', '\\', '$', '`', '\n', '\t', '\r', '\x08', '\x0c', '\x01', '\x7f', '\x80', '\x9f', '‪', '⁦',
-         '\xb2', '\xe9', 'İ', '@', ':', ' ', '%', '(', '-', '.', 'e', 'x', '\U0001f600']
+         '\xb2', '\xe9', 'İ', '@', ':', ' ', '%', '(', '-', '.', 'e', 'x', '\U0001f600', '\u0663']      # (last: ARABIC-INDIC DIGIT THREE, a decimal digit that is not ASCII)
 BIDI = set('‪‫‬‭‮⁦⁧⁨⁩')
 
 def rustlex(path, texts):
@@ -128,6 +128,8 @@ def main():
             jobs.append(('edgeql.quote.quote_ident(force)', v, eq.quote_ident(v, force=True), ('Name', v)))
             if not v.startswith('$'): pass
             jobs.append(('edgeql.quote.quote_ident(allow_reserved)', v, eq.quote_ident(v, allow_reserved=True), ('NameOrKw', v)))
+            # path steps / shape elements (codegen.ident_to_str(.., allow_num=True)): a purely numeric name may stay bare and is then read as an integer token with that text
+            jobs.append(('edgeql.quote.quote_ident(allow_num)', v, eq.quote_ident(v, allow_num=True), ('NameOrNum', v)))
     toks = rustlex(rlx, [j[2] for j in jobs])
     for (fn, v, produced, (kind, val)), r in zip(jobs, toks):
         res['checks'] += 1
@@ -141,6 +143,8 @@ def main():
             is_kw = t['kind'].startswith('Keyword')
             if t['kind'] == 'Ident':
                 if (t['value'] or {}).get('str') != val: fail(fn, v, produced, 'identifier read back with value %s' % ascii((t['value'] or {}).get('str')))
+            elif kind == 'NameOrNum' and t['kind'] == 'IntConst':
+                if t['text'] != val: fail(fn, v, produced, 'numeric name read back as the integer %s' % t['text'])
             elif is_kw:
                 low = t['text'].lower()
                 if t['text'].lower() != val.lower() and t['text'] != val: fail(fn, v, produced, 'read back as keyword %s' % t['text'])
